@@ -7,6 +7,7 @@
 // Output: "ok mut=<m> use=<u> rej=<0|1>" or "BAD <why>"; each case runs in a forked child (abort/terminate = "BAD CRASH").
 #include "private_access.h"
 #include <unistd.h>
+#include <signal.h>
 #include <sys/wait.h>
 #include <sys/resource.h>
 #include "momo/HashMultiMap.h"
@@ -317,8 +318,10 @@ static std::string dispatch(const std::string& line)
 int main()
 {
 	std::string line;
+	int timedOut = 0;
 	while (std::getline(std::cin, line))
 	{
+		if (timedOut >= 6) { printf("BAD CRASH skipped (6 cases already ran into the 10 s limit)\n"); continue; }
 		int fd[2];
 		if (pipe(fd) != 0) return 3;
 		fflush(stdout);
@@ -329,7 +332,7 @@ int main()
 #if !defined(__SANITIZE_ADDRESS__)
 			struct rlimit rl; rl.rlim_cur = rl.rlim_max = rlim_t(2) << 30; setrlimit(RLIMIT_AS, &rl);
 #endif
-			alarm(30);
+			alarm(10);
 			close(fd[0]);
 			std::string res = dispatch(line);
 			if (write(fd[1], res.data(), res.size()) < 0) _exit(4);
@@ -340,6 +343,7 @@ int main()
 		while ((k = read(fd[0], buf, sizeof buf)) > 0) res.append(buf, size_t(k));
 		close(fd[0]);
 		int st = 0; waitpid(pid, &st, 0);
+		if (WIFSIGNALED(st) && WTERMSIG(st) == SIGALRM) ++timedOut;
 		if (WIFSIGNALED(st)) res = "BAD CRASH signal " + std::to_string(WTERMSIG(st)) + " (abort/terminate instead of std::invalid_argument)";
 		else if (WEXITSTATUS(st) != 0) res = "BAD CRASH exit " + std::to_string(WEXITSTATUS(st));
 		printf("%s\n", res.c_str());
